@@ -95,3 +95,57 @@ func vh_ae_config() {
 	}
 	vReach("aeconfig.end")
 }
+
+// vh_ae_config_append: a configuration entry appended right after the
+// follower's latest (still uncommitted) configuration: the leader may only
+// have appended it after the previous one was committed, so the previous
+// latest becomes committed and the new entry latest.
+func vh_ae_config_append() {
+	w := 3
+	r, env := vNewRaft("f", vRaftOpts{n: 1, w: w})
+	s := env.logs
+	base := vBase()
+	t1 := vU64("f.t1")
+	vAssume(t1 <= r.currentTerm && r.currentTerm < 1<<62)
+	cfgCommitted := vConfig("cfgCommitted", 1, false)
+	cfgLatest := vConfig("cfgLatest", 1, false)
+	s.low, s.high = base+1, base+1
+	s.present.Set(base+1, 1)
+	s.present.Set(base+2, 0)
+	s.present.Set(base+3, 0)
+	s.term.Set(base+1, t1)
+	s.typ.Set(base+1, uint64(LogConfiguration))
+	s.data.Set(base+1, vBlobToCell(vEncodeConfiguration(cfgLatest)))
+	r.lastSnapshotIndex, r.lastSnapshotTerm = base, vU64("f.snapTerm")
+	vAssume(r.lastSnapshotTerm <= t1)
+	r.lastLogIndex, r.lastLogTerm = base+1, t1
+	r.commitIndex, r.lastApplied = base, base
+	r.state = Follower
+	r.configurations.latest, r.configurations.latestIndex = cfgLatest, base+1
+	r.configurations.committed, r.configurations.committedIndex = cfgCommitted, base
+	vAssume(vInvBasic(r, env))
+	lcfg := vConfig("cfgNew", 1, false)
+	vAssume(cfgCommitted.Servers[0].ID != cfgLatest.Servers[0].ID && lcfg.Servers[0].ID != cfgLatest.Servers[0].ID && lcfg.Servers[0].ID != cfgCommitted.Servers[0].ID)
+	t2 := vU64("L.t2")
+	a := &AppendEntriesRequest{
+		RPCHeader: RPCHeader{ProtocolVersion: ProtocolVersionMax, ID: vBlob("a.id"), Addr: vBlob("a.addr")},
+		Term:      r.currentTerm, PrevLogEntry: base + 1, PrevLogTerm: t1,
+		Entries:           []*Log{{Index: base + 2, Term: t2, Type: LogConfiguration, Data: vEncodeConfiguration(lcfg)}},
+		LeaderCommitIndex: vU64("a.leaderCommit"),
+	}
+	vAssume(len(a.Addr) > 0 && t2 >= t1 && t2 <= a.Term && a.LeaderCommitIndex <= base+2)
+	rpc, ch := vMakeRPC(a)
+	r.appendEntries(rpc, a)
+	out := <-ch
+	vAssert(out.Response.(*AppendEntriesResponse).Success, "C07.aeconfig.append-accepted")
+	c := &r.configurations
+	vAssert(c.latestIndex == base+2 && vSameServers(c.latest.Servers, lcfg.Servers), "C07.aeconfig.appended-config-is-latest")
+	if a.LeaderCommitIndex < base+2 {
+		vCover("aeconfig.previous-latest-committed")
+		vAssert(c.committedIndex == base+1 && vSameServers(c.committed.Servers, cfgLatest.Servers), "C07.aeconfig.previous-latest-becomes-committed")
+	} else {
+		vCover("aeconfig.new-config-committed-at-once")
+		vAssert(c.committedIndex == base+2 && vSameServers(c.committed.Servers, lcfg.Servers), "C07.aeconfig.commit-passes-latest")
+	}
+	vReach("aeconfig.append.end")
+}
